@@ -52,7 +52,7 @@ def abort_sweep(chk):
   from vf import build, explore  # noqa: F401
   quick = chk.tier == 'quick'
   jobs = []
-  for prog_name, source in (('group', 'thread'), ('group', 'sigint'), ('start', 'thread')):
+  for prog_name, source in (('group', 'thread'), ('group', 'sigint'), ('start', 'thread'), ('nested', 'thread')):
     roots = explore.split_roots(c04.make_run(prog_name, source, 1), 1, 6)
     cap = 4000 if quick else 40000
     per = max(50, cap // max(1, len(roots)))
@@ -66,7 +66,7 @@ def abort_sweep(chk):
   for o in outs:
     n += o['n']
     for sig, det in o['bad']:
-      if 'teardown phase of an entered group' in sig or 'plug tearDown did not run' in sig:
+      if 'teardown phase of a' in sig or 'plug tearDown did not run' in sig:
         chk.violation(sig, det)
   chk.traces += n
   chk.nontrivial += n
